@@ -656,6 +656,12 @@ class PowerExpression(BinaryExpression):
         return self.make_ml_tag("msup", "{}{}".format(left_ml, right_ml), self.classes)
 
     def operate(self, one: NumberType, two: NumberType) -> NumberType:
+        # numpy converts Python ints to int64, so an integer power silently wraps
+        # beyond 2^63 and a negative integer exponent raises. Python ints are exact.
+        if isinstance(one, int) and isinstance(two, int):
+            if two >= 0:
+                return one**two
+            return np.power(float(one), two)
         return np.power(one, two)
 
     def __str__(self) -> str:
